@@ -797,25 +797,26 @@ theorem insertTwoColumnsOpts_eq (cx : Ctx α) (ed : Editor α)
     (hne : ¬(leftText.isEmpty ∧ rightText.isEmpty)) :
     ∃ leftW rightW : Int, 2 ≤ leftW ∧ 2 ≤ rightW ∧
       ed.insertTwoColumnsOpts cx pos leftText rightText msb width pct o
-        = twoColBody cx ed pos leftText rightText msb leftW rightW o := by
+        = twoColBody cx ed pos leftText rightText (if msb < 0 then 0 else msb) leftW rightW o := by
   unfold Editor.insertTwoColumnsOpts
   rw [if_neg hne]
   generalize (if pct.neg = true ∨ (pct.num == 0) = true then ((0 : Nat), (0 : Nat))
     else if pct.num > 2 ^ pct.exp then (1, 0) else (pct.num, pct.exp)) = ne
   obtain ⟨num, exp⟩ := ne
   simp only
-  have hW : msb + 4 ≤ (if width < msb + 2 + 2 then msb + 2 + 2 else width) := by split <;> omega
-  generalize (if width < msb + 2 + 2 then msb + 2 + 2 else width) = W at hW ⊢
-  generalize ((mulRoundTrunc (W - msb).toNat num exp : Nat) : Int) = m
-  have hL : 2 ≤ (if (if m < 2 then 2 else m) > W - msb - 2 then W - msb - 2
+  generalize (if msb < 0 then 0 else msb) = msb'
+  have hW : msb' + 4 ≤ (if width < msb' + 2 + 2 then msb' + 2 + 2 else width) := by split <;> omega
+  generalize (if width < msb' + 2 + 2 then msb' + 2 + 2 else width) = W at hW ⊢
+  generalize ((mulRoundTrunc (W - msb').toNat num exp : Nat) : Int) = m
+  have hL : 2 ≤ (if (if m < 2 then 2 else m) > W - msb' - 2 then W - msb' - 2
       else if m < 2 then 2 else m) ∧
-      (if (if m < 2 then 2 else m) > W - msb - 2 then W - msb - 2
-      else if m < 2 then 2 else m) ≤ W - msb - 2 := by
+      (if (if m < 2 then 2 else m) > W - msb' - 2 then W - msb' - 2
+      else if m < 2 then 2 else m) ≤ W - msb' - 2 := by
     repeat' split
     all_goals omega
-  generalize (if (if m < 2 then 2 else m) > W - msb - 2 then W - msb - 2
+  generalize (if (if m < 2 then 2 else m) > W - msb' - 2 then W - msb' - 2
       else if m < 2 then 2 else m) = L at hL ⊢
-  refine ⟨L, W - msb - L, hL.1, by omega, ?_⟩
+  refine ⟨L, W - msb' - L, hL.1, by omega, ?_⟩
   rw [if_neg (by omega)]
   rfl
 
@@ -895,7 +896,7 @@ theorem twoColBody_total (hs : cx.Sane) (hfit : cx.WrapFits) (ed : Editor α) (p
 their width (`Ctx.WrapFits`) -/
 theorem insertTwoColumnsOpts_total (hs : cx.Sane) (hfit : cx.WrapFits) (ed : Editor α)
     (pos : Int) (leftText rightText : List α) (msb width : Int) (pct : Pct) (o : Options α)
-    (hmsb : 0 ≤ msb) :
+    (_hmsb : 0 ≤ msb) :
     ∃ r, ed.insertTwoColumnsOpts cx pos leftText rightText msb width pct o = .ok r := by
   by_cases hne : leftText.isEmpty ∧ rightText.isEmpty
   · unfold Editor.insertTwoColumnsOpts
@@ -903,7 +904,19 @@ theorem insertTwoColumnsOpts_total (hs : cx.Sane) (hfit : cx.WrapFits) (ed : Edi
     exact ⟨_, rfl⟩
   · obtain ⟨L, Rw, hL, _, h⟩ := insertTwoColumnsOpts_eq cx ed pos leftText rightText msb width pct o hne
     rw [h]
-    exact twoColBody_total hs hfit _ _ _ _ _ _ _ _ hmsb hL
+    exact twoColBody_total hs hfit _ _ _ _ _ _ _ _ (by split <;> omega) hL
+
+/-- 8'. … and since a negative `minSpaceBetween` is taken as 0 (repair D17), for EVERY value of it -/
+theorem insertTwoColumnsOpts_total_any (hs : cx.Sane) (hfit : cx.WrapFits) (ed : Editor α)
+    (pos : Int) (leftText rightText : List α) (msb width : Int) (pct : Pct) (o : Options α) :
+    ∃ r, ed.insertTwoColumnsOpts cx pos leftText rightText msb width pct o = .ok r := by
+  by_cases hne : leftText.isEmpty ∧ rightText.isEmpty
+  · unfold Editor.insertTwoColumnsOpts
+    rw [if_pos hne]
+    exact ⟨_, rfl⟩
+  · obtain ⟨L, Rw, hL, _, h⟩ := insertTwoColumnsOpts_eq cx ed pos leftText rightText msb width pct o hne
+    rw [h]
+    exact twoColBody_total hs hfit _ _ _ _ _ _ _ _ (by split <;> omega) hL
 
 /-- `CollapseSpaceOpts` is total -/
 theorem collapseSpaceOpts_total (hs : cx.Sane) (ed : Editor α) (o : Options α) :
